@@ -7,6 +7,7 @@ import XV.Model.Decode
 import XV.Spec.Dis
 import XV.Spec.OpTables
 import XV.Props.C02.Stream
+import XV.Props.C02.Stream311
 namespace XV.Props.C02
 open XV XV.Model XV.Model.Decode
 
@@ -147,5 +148,67 @@ example : ((instrs Gen.opcode_38 [144, 1, 1, 0, 100, 0]).toOption.map (List.map 
     some [(0, 144, some 1), (2, 1, none), (4, 100, some 0)] ∧
     (disTblFor Gen.opcode_38).bind (fun d => Spec.Dis.unpack d [144, 1, 1, 0, 100, 0]) =
     some [(0, 144, some 1), (2, 1, none), (4, 100, some 256)] := by decide +kernel
+
+/-! ### the unbounded stream theorem on the real tables with inline caches (3.11, 3.12, 3.13) -/
+
+def streamFacts311 (t : OpTable) (d : Spec.Dis.DisTbl) : Bool :=
+  ((List.range 256).all fun op =>
+    (!(isExtName t op) || t.hasArg op) &&
+    Nat.beq (t.instrSizeOf op) (if py36 t then 2 else if t.hasArg op then 3 else 1) &&
+    (!(isDefined d op) ||
+      (t.hasArg op == (if verGe d.version 3 12 then (d.hasarg.getD []).contains op else decide (op ≥ d.haveArgument)))) &&
+    (isExtName t op == (d.extendedArg == some op))) &&
+  py36 t && verGe d.version 3 11 && !(t.hasArg 0)
+
+def streamFacts311Ok (t : OpTable) : Bool :=
+  match disTblFor t with
+  | none => false
+  | some d => !(verGe d.version 3 11) || streamFacts311 t d
+
+theorem C02_stream_tables_311_all : Gen.allTables.all streamFacts311Ok = true := by decide +kernel
+
+theorem facts311_of (t : OpTable) (d : Spec.Dis.DisTbl) (h : streamFacts311 t d = true) : TableOk t ∧ DisOk311 t d := by
+  simp only [streamFacts311, Bool.and_eq_true, List.all_eq_true, List.mem_range, Bool.or_eq_true,
+    Bool.not_eq_true', beq_iff_eq] at h
+  obtain ⟨⟨⟨hall, hera⟩, h11⟩, h0⟩ := h
+  refine ⟨⟨?_, ?_⟩, ⟨?_, ?_, hera, h11, h0⟩⟩
+  · intro op hop hx
+    have := (hall op hop).1.1.1
+    rcases this with h | h
+    · rw [hx] at h; cases h
+    · exact h
+  · intro op hop
+    exact Nat.eq_of_beq_eq_true (hall op hop).1.1.2
+  · intro op hop hdef
+    rcases (hall op hop).1.2 with h | h
+    · rw [hdef] at h; cases h
+    · exact h
+  · intro op hop; exact (hall op hop).2
+
+/-- C02_stream_311_all: on the 3.11, 3.12 and 3.13 tables xdis ships, for every byte string of any
+    length laid out with its inline cache slots (`CacheOk`), the non-CACHE part of
+    Model.Decode.instrs is CPython's _unpack_opargs -/
+theorem C02_stream_311_all (t : OpTable) (ht : t ∈ Gen.allTables) (d : Spec.Dis.DisTbl) (hd : disTblFor t = some d)
+    (h11 : verGe d.version 3 11 = true) (code : Bytes) (hbytes : IsBytes code) (hc : CacheOk t d code) :
+    ((instrs t code).toOption.map (List.map tri)).map (List.filter nc) = Spec.Dis.unpack d code := by
+  have h := List.all_eq_true.mp C02_stream_tables_311_all t ht
+  simp only [streamFacts311Ok, hd, h11, Bool.not_true, Bool.false_or] at h
+  obtain ⟨ok, dk⟩ := facts311_of t d h
+  exact C02_stream_311 t d code ok dk hbytes hc
+
+/-- non-vacuity: `def f(a, g): return a.b + g(a)` as CPython 3.12.1 and 3.11.7 compile it (LOAD_ATTR
+    with 9 / 4 cache slots, CALL, BINARY_OP) meets the layout hypothesis -/
+def code312 : Bytes := [151, 0, 124, 0, 106, 0, 0, 0, 0, 0, 0, 0, 0, 0, 0, 0, 0, 0, 0, 0, 0, 0, 0, 0, 2, 0, 124, 1, 124, 0,
+  171, 1, 0, 0, 0, 0, 0, 0, 122, 0, 0, 0, 83, 0]
+def code311 : Bytes := [151, 0, 124, 0, 106, 0, 0, 0, 0, 0, 0, 0, 0, 0, 2, 0, 124, 1, 124, 0, 166, 1, 0, 0, 171, 1, 0, 0,
+  0, 0, 0, 0, 0, 0, 122, 0, 0, 0, 83, 0]
+example : (match disTblFor Gen.opcode_312 with | some d => cacheOk Gen.opcode_312 d code312 45 0 0 0 | none => false) = true ∧
+    (match disTblFor Gen.opcode_311 with | some d => cacheOk Gen.opcode_311 d code311 41 0 0 0 | none => false) = true := by
+  decide +kernel
+
+/-- and a code unit that should be a cache slot but is not CACHE is excluded: CPython skips it, xdis lists it -/
+example : (match disTblFor Gen.opcode_312 with
+    | some d => cacheOk Gen.opcode_312 d [106, 0, 1, 0, 0, 0, 0, 0, 0, 0, 0, 0, 0, 0, 0, 0, 0, 0, 0, 0] 21 0 0 0
+    | none => true) = false := by decide +kernel
 
 end XV.Props.C02
